@@ -47,7 +47,7 @@ pub fn prop() -> Prop<Hist> {
         rule: "Cases are histories with merges under arbitrary thresholds (merge outputs roll over into several files because max_file_size is a few entries). At every reopen and at the end the closed directory is copied twice, all *.hint files are deleted from one copy, both copies are opened, and every pool key plus both index key sets must agree (differential; the map model is not consulted). Non-trivial: the closed directory held at least one non-empty hint file and at least one entry written after a merge overwrote or deleted a merged key; distinct = distinct hash of the whole case.",
         assumptions: &["hint files are produced only by merges run through the verif_merge hook"],
         needs_shim: false,
-        budget: |t| t.pick(3200, 80_000),
+        budget: |t| t.pick(16000, 250000),
         shards: |_| 16,
         strategy,
         exec,
